@@ -367,10 +367,9 @@ def getitemShapedObj (shape : Shape) (masks : List Mask) (indx : List Entry) : O
   masks.mapM fun m => getitem shape m indx
 
 /-- a SHAPELESS object with derivatives (indexer.py:11-26): the derivatives are not indexed one by
-    one; they follow `as_size_zero()` / `as_all_masked()` / `reshape()` of the object.
-    `Qube.as_all_masked` (qube.py:2556-2570) returns early when the object itself is already fully
-    masked, so in that case the derivatives KEEP their own masks under a masked Boolean index
-    (recorded as KF-C09-2). -/
+    one; they follow `as_size_zero()` / `as_all_masked()` / `reshape()` of the object
+    (`Qube.as_all_masked`, qube.py, masks every derivative — also when the object itself is already
+    masked, since 33685c7). -/
 def getitemScalarObj (mask : Bool) (dmasks : List Bool) (indx : List Entry) : Option (List Result) :=
   match scalarLoop {} indx with
   | none => none
@@ -378,7 +377,7 @@ def getitemScalarObj (mask : Bool) (dmasks : List Bool) (indx : List Entry) : Op
     let shp := s.before ++ s.after
     let m := if s.sizeZero then mask else if s.masked then true else mask
     let dm : Bool → Bool := fun d =>
-      if s.sizeZero then d else if s.masked && !mask then true else d
+      if s.sizeZero then d else if s.masked then true else d
     some (⟨shp, fun _ => [], .all m⟩ :: dmasks.map fun d => ⟨shp, fun _ => [], .all (dm d)⟩)
 
 /-- `__getitem__` of an object (first mask) with its derivatives (remaining masks) -/
